@@ -7,6 +7,7 @@ import (
 	"go/token"
 	"go/types"
 	"sort"
+	"strings"
 
 	"jetverif/an"
 )
@@ -602,6 +603,37 @@ func (c16) extensions(c *an.Ctx) {
 		})
 	}
 	c.Expect("C16.ext", "loops over Set.extensions", nLoops, 2)
+	// the loader and the cache are asked about candidates only: every Loader.Exists / Cache.Get of the Set
+	// lies inside a loop over the configured extensions (a probe of the bare name in front of the loop
+	// lets it win whatever position "" has in the list — or although it is not in the list at all)
+	nProbe := 0
+	for _, f := range p.Units() {
+		if f.Pkg != p.Jet || f.Body == nil {
+			continue
+		}
+		finfo := f.Info()
+		var probes []*ast.CallExpr
+		probes = append(probes, p.CallsIn(f, "(jet.Loader).Exists")...)
+		probes = append(probes, p.CallsIn(f, "(jet.Cache).Get")...)
+		for _, call := range probes {
+			if recv := an.Receiver(call); recv == nil || !strings.HasPrefix(p.FieldKey(finfo, recv), "Set.") {
+				continue // not the Set's own loader/cache (a loader delegating to another loader)
+			}
+			nProbe++
+			inLoop := false
+			for _, enc := range an.EnclosingStmts(f, call) {
+				if rs, ok := enc.(*ast.RangeStmt); ok {
+					if g := p.OwnerFn(rs.Pos()); g != nil && p.FieldKey(g.Info(), rs.X) == "Set.extensions" {
+						inLoop = true
+					}
+				}
+			}
+			key := f.Name + "/probe:" + an.CalleeName(finfo, call)
+			c.Check(inLoop, "C16.ext", key, call.Pos(), "the loader/cache is asked inside the loop over the configured extensions",
+				f.Name+" asks the loader or the cache about "+an.Str(call.Args[0])+" outside the loop over the configured extensions: that name wins regardless of the configured order")
+		}
+	}
+	c.Expect("C16.ext", "Loader.Exists / Cache.Get probes of the Set", nProbe, 2)
 	// the string that Exists accepted is the one opened and parsed: follow the argument
 	for _, s := range p.AllCalls(ldOpen) {
 		if s.Fn.Pkg != p.Jet {
